@@ -155,8 +155,14 @@ func (fr *oFrame) builtinCall(call *ast.CallExpr) (oval, bool) {
 			fr.abort("panic: make with length %d capacity %d", n, c)
 			return oTop{"panic in make"}, true
 		}
-		if n > 1<<12 || c > 1<<12 {
-			fr.abort("panic: allocation of %d elements (capacity %d) at %s — above the model's limit of 4096: the size comes from an input count that nothing bounded", n, c, fr.it.p.Position(call.Pos()))
+		// the allowance is 4096 elements or 64 KiB, whichever is larger (a block of raw bytes for
+		// 1024 points is the same memory as the 1024 points)
+		esz := int64(1 << 30)
+		if st, ok := t.Underlying().(*types.Slice); ok {
+			esz = (&types.StdSizes{WordSize: 8, MaxAlign: 8}).Sizeof(st.Elem())
+		}
+		if big := max(n, c); big > 1<<12 && int64(big)*esz > 1<<16 {
+			fr.abort("panic: allocation of %d elements (capacity %d) at %s — above the model's limit of 4096 elements or 64 KiB: the size comes from an input count that nothing bounded", n, c, fr.it.p.Position(call.Pos()))
 			return oTop{"oversized make"}, true
 		}
 		return fr.it.newSlice(t, n, c), true
@@ -486,6 +492,24 @@ func intBinop(op token.Token, a, b oInt) (oval, bool) {
 			return nil, false
 		}
 		return a % b, true
+	case token.AND:
+		return a & b, true
+	case token.OR:
+		return a | b, true
+	case token.XOR:
+		return a ^ b, true
+	case token.AND_NOT:
+		return a &^ b, true
+	case token.SHL:
+		if b < 0 || b > 63 {
+			return nil, false
+		}
+		return a << uint(b), true
+	case token.SHR:
+		if b < 0 || b > 63 {
+			return nil, false
+		}
+		return a >> uint(b), true
 	}
 	return nil, false
 }
